@@ -394,6 +394,7 @@ func c14ExecRun(t *rapid.T) {
 	count("sched_contentions", int64(sim.Contentions))
 	count("sched_spawned_goroutines", int64(sim.Spawned))
 	count("sched_leaked_goroutines", int64(sim.Leaked))
+	count("sched_stray_goroutine_calls", int64(simrt.TakeStrayCalls()))
 	count("policy_"+opts.Policy.String(), 1)
 	countMax("max_tasks", int64(ntasks))
 	if cacheOn {
